@@ -223,3 +223,40 @@ func TestVerifSliceReplay(t *testing.T) {
 	}
 	return rr
 }
+
+// explicitBytesModel re-runs a failed query with one integer constant per byte position of the named array
+// variables (|rp!<array>!<i>|) and returns the model, or nil.
+func explicitBytesModel(smtFile string, arrays []string) map[string]string {
+	txt, err := os.ReadFile(smtFile)
+	if err != nil {
+		return nil
+	}
+	src := string(txt)
+	cut := strings.LastIndex(src, "(check-sat)")
+	if cut < 0 {
+		return nil
+	}
+	var extra strings.Builder
+	for _, a := range arrays {
+		if !strings.Contains(src, "(declare-const |"+a+"| ") {
+			continue
+		}
+		for i := 0; i < sliceReplayMaxLen; i++ {
+			fmt.Fprintf(&extra, "(declare-const |rp!%s!%d| Int)\n(assert (= |rp!%s!%d| (select |%s| %d)))\n", a, i, a, i, a, i)
+		}
+	}
+	tmp, err := os.MkdirTemp("", "vcgo-bytesmodel-")
+	if err != nil {
+		return nil
+	}
+	defer os.RemoveAll(tmp)
+	q2 := filepath.Join(tmp, "q.smt2")
+	_ = os.WriteFile(q2, []byte(src[:cut]+extra.String()+src[cut:]), 0o644)
+	for _, sp := range solvers {
+		r := runOne(context.Background(), sp, q2, 20)
+		if r.Status == "sat" {
+			return parseModel(r.Output)
+		}
+	}
+	return nil
+}
